@@ -282,6 +282,10 @@ LABELS = {
     # (no falsy labels: the renamed integers are all truthy, so a model that
     # looks at truthiness - all(), any() without predicate - still passes
     # the parametricity test)
+    # host records: the collection arrives as host data - a tuple / list of
+    # python lists - and is converted the way evaluate(data=..) converts it
+    # (see check_relabel); inside yaql the records are tuples
+    'hostlists': lambda i: ('p', i),
     'strs': lambda i: (' ', 's', 'S', '0', 's ', '\u00e9', 'e\u0301')[i + 2]
     if -2 <= i <= 4 else 'x%d' % i,
 }
@@ -304,11 +308,19 @@ def _rename(v, f):
 
 def _dict_keyed_by_container(v):
     if isinstance(v, dict):
-        return any(isinstance(k, (dict, yutils.FrozenDict)) for k in v) or \
+        return any(isinstance(k, (dict, yutils.FrozenDict, tuple, list))
+                   for k in v) or \
             any(_dict_keyed_by_container(w) for w in v.values())
     if isinstance(v, (list, tuple)):
         return any(_dict_keyed_by_container(i) for i in v)
+    if isinstance(v, (set, frozenset)):
+        return any(isinstance(i, (tuple, list, dict, yutils.FrozenDict))
+                   for i in v)
     return False
+
+
+# entries that look into elements which are sequences themselves
+LOOKS_INTO_SEQUENCES = ('flatten',)
 
 
 def _shifted(e, L, args, pi, kind='tuple'):
@@ -380,6 +392,10 @@ def check_relabel(run, case):
     if fn not in parametric_entries():
         run.exclude('model of this entry is not parametric in the elements')
         return
+    if case['label'] == 'hostlists' and any(
+            k in fn for k in LOOKS_INTO_SEQUENCES):
+        run.exclude('entry looks into elements that are sequences')
+        return
     e = M.ENTRIES[fn]
     L = list(case['c'])
     kind = case['ckind']
@@ -391,8 +407,9 @@ def check_relabel(run, case):
     if exp[0] == 'ok':
         exp = ('ok', _rename(exp[1], lambda v: f(inv[v])))
         if _dict_keyed_by_container(exp[1]):
-            run.exclude('expected result has a dictionary as dictionary key '
-                        '(cannot be finalised: known finding of C10)')
+            run.exclude('expected result has a container as dictionary key '
+                        'or set member (cannot be finalised: known finding '
+                        'of C10)')
             return
     binds = {}
     for k, v in args.items():
@@ -412,6 +429,10 @@ def check_relabel(run, case):
             if isinstance(binds.get(k), tuple):
                 binds[k] = tuple(yutils.FrozenDict(list(x.items())[::-1])
                                  for x in binds[k])
+    if case['label'] == 'hostlists':
+        raw = [list(x) if x is not None else None for x in real]
+        real = list(yutils.convert_input_data(
+            raw if kind == 'list' else tuple(raw)))
     binds['c'] = _materialise(kind, real)
     got = _evaluate(e.template, binds)
     run.case(case, _nontrivial(L, kind, args),
@@ -542,6 +563,18 @@ def dict_cases(draw):
     if fn.startswith('mergeWith') and draw(st.booleans()):
         args['d'] = list(draw(deep_dicts).items())
         args['d2'] = draw(deep_dicts)
+        args['n'] = draw(st.integers(-1, 4))
+    elif fn.startswith('mergeWith'):
+        # both dictionaries hold lists under the same keys; the lists
+        # repeat items (within one list and across the two)
+        dup = st.lists(st.integers(0, 2), min_size=1, max_size=4)
+        ks = draw(st.lists(st.sampled_from(['a', 'b', 'c']), min_size=1,
+                           max_size=3, unique=True))
+        args['d'] = [(k, draw(dup)) for k in ks]
+        args['d2'] = {k: draw(dup) for k in ks}
+        if draw(st.booleans()):
+            args['d'] = [('x', dict(args['d']))]
+            args['d2'] = {'x': args['d2']}
         args['n'] = draw(st.integers(-1, 4))
     return {'kind': 'dict', 'fn': fn,
             'args': {k: common.enc(v) for k, v in args.items()}}
